@@ -503,7 +503,8 @@ PROPS = {
     "C11": {
         "modules": ["Stun.Properties.C11", "Stun.Properties.C10L2"],
         "theorems": ["Stun.C11.writes_bit_identical", "Stun.C11.retransmit_guard", "Stun.C11.no_retransmit_before_deadline",
-                     "Stun.C11.nextTimeout_formula", "Stun.C11.setRTO_only_later", "Stun.C11.no_retransmit_when_disabled",
+                     "Stun.C11.nextTimeout_formula", "Stun.C11.setRTO_only_later", "Stun.C11.no_retransmit_when_disabled", "Stun.C11.writes_at_most_n_plus_1",
+                     "Stun.ClientProofs.run_budget", "Stun.ClientProofs.retransmit_budget", "Stun.ClientProofs.start_budget",
                      "Stun.C10L2.run2_l1", "Stun.C10L2.f14_write_after_completion"],
         "streams": ["client-hist"], "level": "proof", "predicate": pred_client("C11"),
         "rule": CLIENT_RULE + "; message sizes 20..65535 incl. both sides of the former 2048-byte scratch buffer; the "
